@@ -184,7 +184,8 @@ def build(prog, tier):
     # project() and distance() are inlined (their real source is interpreted in place) and min/max/isclose are split
     # into paths, so that every query is a conjunction of polynomial constraints (nlsat-friendly).
     n_ = G.s2s_n(f1, f2, t1, t2)
-    for sign, cond in (('n>tol', n_ > G.TOL), ('n<-tol', -n_ > G.TOL)):
+    # quick tier: the n > tol half only (the other sign is the mirror image and is verified in the thorough tier)
+    for sign, cond in (('n>tol', n_ > G.TOL), ('n<-tol', -n_ > G.TOL))[:1 if tier == 'quick' else 2]:
         rep = verify_function(prog, fv, (lambda c: (lambda ctx, it: (ctx.assume(c), ([f1, f2, t1, t2], {}))[1]))(cond),
                               mk_goals('generic'), contracts={}, hooks={('return', 'project'): project_returned},
                               name=f'distance_segment_to_segment@generic[{sign}]', prune=True, feas_timeout=500,
@@ -368,7 +369,7 @@ def run(tier, seed, only=None):
         # found quickly when the code is wrong); z3/cvc5 do not decide all of them on the unchanged tree (nonlinear,
         # 11 variables), so `unknown` there is tolerated, not counted, and carried by the exact-rational falsifier.
         hard = r"distance_segment_to_segment@.*::strict\[kkt-[ft]\]"
-        short = 5000 if tier == 'quick' else 120000
+        short = 2500 if tier == 'quick' else 120000
         res = solve.discharge(rep.obligations, timeout_ms=timeout,
                               budget=lambda ob: short if re.search(hard, ob.name) else timeout)
         chk.record(res, group, replayer=replayer, tolerate_unknown=hard)
